@@ -15,9 +15,13 @@ def run(ctx):
     py = ctx.python()
     lib_order.comparators(ctx, P)
     lib_order.sorter_keys(ctx, P)
+    lib_order.bookmark_cursor(ctx, P)
     lib_schema.argname(ctx, P, tus=("tables",))
     lib_schema.row_forwarding(ctx, P, tus=("tables",))
-    lib_gate.gate(ctx, P)
+    lib_gate.gate(ctx, P, only={"tsk_table_collection_sort", "tsk_table_collection_canonicalise", "tsk_table_collection_build_index",
+                                "tsk_table_collection_deduplicate_sites", "tsk_table_collection_compute_mutation_parents",
+                                "tsk_table_collection_compute_mutation_times", "tsk_table_sorter_init",
+                                "tsk_table_collection_individual_topological_sort"})
     lib_sweep.sweep_conditions(ctx, P)
     lib_module.parsed_used(ctx, P)
     lib_py.kw_forward(ctx, py, mods=("tables",))
